@@ -862,6 +862,30 @@ impl<'a, 'b> RtGen<'a, 'b> {
                             self.decls.push(format!("type {d}Base = {n};\ninterface {d} extends {d}Base {{ own: 1 }}"));
                         }
                         self.label("inherited-member-index");
+                        if self.c.chance(1, 3) {
+                            // an inherited and an own member in one index union: whatever is
+                            // emitted must accept the values of both
+                            self.label("inherited-and-own-member-index-union");
+                            let own = Self::mk("1", &["Number"], 0);
+                            let (ctors, _) = merge(&[&a, &own]);
+                            let loose = ctors.clone().map(|c| {
+                                let mut may = c;
+                                if let Some(l) = &a.loose {
+                                    may.extend(l.1.clone());
+                                }
+                                may.push("*nocheck".into());
+                                (vec![], may)
+                            });
+                            let mut inhabitants = a.inhabitants.clone();
+                            inhabitants.extend(own.inhabitants.clone());
+                            return RtType {
+                                text: format!("{d}[\"a\" | \"own\"]"),
+                                ctors,
+                                loose,
+                                inhabitants,
+                                depth: a.depth + 1,
+                            };
+                        }
                         let cs = a.ctors.clone();
                         let loose = cs.clone().map(|c| {
                             let mut may = a.loose.as_ref().map(|l| l.1.clone()).unwrap_or(c);
